@@ -450,6 +450,9 @@ type hearsayScn struct {
 	Mult   int      `json:"suspicion_mult"`
 }
 
+// hearsayWorstPermille: the slowest removal seen by this worker in part (c), in thousandths of its bound.
+var hearsayWorstPermille int
+
 func runHearsay(t *testing.T, s hearsayScn) (verdict, msg string) {
 	res := inBubble(t, func(b *bubble) {
 		installDetRand()
@@ -539,6 +542,9 @@ func runHearsay(t *testing.T, s hearsayScn) (verdict, msg string) {
 		for i := 0; i < k; i++ {
 			name := fmt.Sprintf("c%d", i)
 			d, ok := removed[name]
+			if pm := int(1000 * d / B); ok && pm > hearsayWorstPermille {
+				hearsayWorstPermille = pm
+			}
 			if !ok || d > B {
 				verdict, msg = "crashed-member-not-removed-in-time", fmt.Sprintf("%+v: o still lists %s %v after learning of the crash from t's list (bound %v; record %s)", s, name, time.Since(t0), B, recStr(findRec(o.M.VSnapshot(), name)))
 				return
@@ -826,6 +832,7 @@ func TestC03(t *testing.T) {
 		}
 	}
 	rep.Extra["hearsay_executions"] = hear
+	rep.Extra["max_hearsay_removal_over_bound_permille"] = hearsayWorstPermille
 	rep.Extra["detection_executions"] = detExecs
 	rep.Extra["max_detection_time_over_bound_permille"] = int(worstRatio * 1000)
 	rep.States = len(digests)
